@@ -398,14 +398,17 @@ def collect(dassh, label, case, d, temps=3):
     Tin = float(r.inlet_temp)
     seen = set()
     for ai, a in enumerate(r.assemblies):
-        if a.name in seen:
+        # distinct = type and flow rate (the update operator and the step
+        # requirement depend on both)
+        key = (a.name, round(float(a.flow_rate), 9))
+        if key in seen:
             continue
-        seen.add(a.name)
+        seen.add(key)
         Tout = float(a._estimated_T_out)
         Ts = np.linspace(Tin, Tout, temps)
         for ri, reg in enumerate(a.region):
             for ti, T in enumerate(Ts):
-                lab = f'{label}/{a.name}/r{ri}/T{ti}'
+                lab = f'{label}/{a.name}#{ai}/r{ri}/T{ti}'
                 if reg.is_rodded:
                     reg._probe_adiabatic = r._is_adiabatic
                     out.append(bundle_trace(dassh, reg, dz, float(T), lab))
@@ -443,6 +446,15 @@ def probe_cases(rng, tier):
         c = copy.deepcopy(cl[0][1])
         c['gap_model'] = gm
         lab.append((f'{cl[0][0]}-{gm}', c))
+    # one type at seven positions with very different flow rates: the step
+    # requirement is a property of the position, not of the type
+    A1 = scenarios.fitted_type(2, 0.060)
+    p7 = scenarios.layout_positions(7)
+    base = scenarios.flow_for(A1, 0.12)
+    fl = [base * f for f in (1.0, 0.8, 0.5, 0.25, 0.12, 0.3, 0.06)]
+    lab.append(('7-one-type-flows', scenarios.make_core(
+        rng, {'A': A1}, [(r_, p_, 'A') for (r_, p_) in p7], fl,
+        gap_model='flow', bypass_fraction=0.25)))
     # temperature-dependent coolant
     c = copy.deepcopy(sl['rod3-flowgap'])
     c['coolant'] = 'sodium'
